@@ -108,7 +108,16 @@ pub(super) fn translate_operator(
                     ctx,
                 )?;
 
-                text += &arg.into_source();
+                // a minus sign directly in front of an operand whose text starts with a minus sign
+                // (`-` over an s-string `-a`) would read as the start of an SQL comment
+                let source = arg.into_source();
+                if text.ends_with('-') && source.starts_with('-') {
+                    text += "(";
+                    text += &source;
+                    text += ")";
+                } else {
+                    text += &source;
+                }
             }
             pl::InterpolateItem::String(s) => {
                 text += s;
